@@ -17,7 +17,7 @@
 -/
 import PS.Proofs.Solver
 import PS.Proofs.SolverRestartStats
-import PS.Proofs.SolverRestartGrammar
+import PS.Proofs.SolverRestartGrammarRows
 import PS.Proofs.SolverRestartFuel
 import PS.Props.C11
 set_option linter.unusedSectionVars false
@@ -1030,6 +1030,22 @@ theorem C10_restart_grammar (G : TT S Unit) (tags0 : Tags S Unit) (data : List (
     have hpos : 0 < prior * weight (uniform G) nt P := Rat.mul_pos hp hu
     grind
 
+/-- **C10_restart_grammar_distribution.** With a positive prior and non-negative scores (they are
+    fractions in [0, 1]: `C10_score`), on a grammar every non-terminal of which has a rule, from a
+    table whose rows mirror the grammar's (`ProbDetGrammar.uniform(G)`: `covers_uniform`,
+    `rowsOf_uniform`; or the result of an earlier restart — the conclusion re-establishes the
+    hypotheses): `_restart_` does not raise and the grammar it hands to `clone` is a probability
+    distribution with full support — every row sums to exactly 1 and every rule has a positive weight. -/
+theorem C10_restart_grammar_distribution (G : TT S Unit) (tags0 : Tags S Unit) (data : List (Prog × Rat))
+    (prior : Rat)
+    (hG : ∀ nt rs, AList.lookup nt G.rules = some rs → rs ≠ [] ∧ (AList.keys rs).Nodup)
+    (hcov : Covers G tags0) (hrows : RowsOf G tags0) (hdata : ∀ d ∈ data, gen G d.1 G.start = true)
+    (hnn : ∀ d ∈ data, 0 ≤ d.2) (hp : 0 < prior) :
+    ∃ t, restartTags G tags0 data prior = some t ∧ Covers G t ∧ RowsOf G t ∧
+      ∀ nt row, AList.lookup nt t = some row →
+        rowSum row = 1 ∧ ∀ P ∈ AList.keys row, 0 < weight t nt P :=
+  restartTags_distribution G tags0 data prior hG hcov hrows hdata hnn hp
+
 namespace ExampleG
 /-- a grammar with two non-terminals: `int@0 → f(int@1) | a`, `int@1 → a | b` -/
 def int : Ty := .base "int"
@@ -1045,6 +1061,16 @@ def data : List (Prog × Rat) := [(fa, 1 / 2), (.node a [], 1), (fa, 1)]
 -- hypotheses: the data are derivable; the uniform table tags every rule (covers_uniform)
 example : ∀ d ∈ data, gen G d.1 G.start = true := by decide
 example : Covers G (uniform G) := covers_uniform G
+example : RowsOf G (uniform G) := rowsOf_uniform G
+example : ∀ nt rs, AList.lookup nt G.rules = some rs → rs ≠ [] ∧ (AList.keys rs).Nodup := by
+  intro nt rs h
+  simp only [G, AList.lookup] at h
+  split at h
+  · cases h; exact ⟨by simp, by decide⟩
+  · split at h
+    · cases h; exact ⟨by simp, by decide⟩
+    · cases h
+example : ∀ d ∈ data, (0 : Rat) ≤ d.2 := by decide +kernel
 -- accumulated scores: f@0 used by `f a` twice (1/2 + 1), a@0 once (1), a@1 twice (3/2), b@1 never
 example : accScore G data nt0 f = 3 / 2 ∧ accScore G data nt0 a = 1 ∧ accScore G data nt1 a = 3 / 2 ∧
     accScore G data nt1 b = 0 := by decide +kernel
